@@ -1150,3 +1150,145 @@ def s_valid_to_replace_anysize(ctx):
 SCENARIOS.append(Scenario("C06.matcher.valid_to_replace[any size]", s_valid_to_replace_anysize, [(MREL, "_valid_to_replace")],
                           trusted=["ir.Value.uses() / is_graph_output() (onnx_ir): the consumers of a value, whether it is an output of its graph"],
                           assumptions=["three nested loop invariants stated at one arbitrary (Skolem) triple; termination not proved"]))
+
+
+# ------------------------------------------------------------------ _match_node for ANY number of inputs / outputs (deductive) ---
+
+def s_match_node_anyarity(ctx):
+    """_match_node for node patterns and nodes with ANY number of inputs and outputs: the two loops (inputs through zip / zip_longest,
+    outputs through enumerate) are verified with inductive invariants over ghost arrays that record what _match_value / bind_value
+    were asked and answered, stated for one arbitrary (Skolem) input position q0 and output position o0.
+      True  => arity is admissible, pattern input q0 was checked against node input q0 (None when the node has fewer inputs) and matched,
+               pattern output o0 exists on the node and was bound to it, the node is recorded as matched;
+      False => a failure is recorded."""
+    import onnx_ir as ir
+    from onnxscript.rewriter import _matcher, _pattern_ir
+    from pyvc.interp import LoopSpec
+    from pyvc.values import SSeq
+    I = Interp(ctx)
+    I_, B_ = z3.IntSort(), z3.BoolSort()
+    kp, kn, mp, mn = ctx.int("pattern_inputs"), ctx.int("node_inputs"), ctx.int("pattern_outputs"), ctx.int("node_outputs")
+    ctx.assume(z3.And(kp >= 0, kn >= 0, mp >= 1, mn >= 1))
+    q0, o0 = ctx.int("q0"), ctx.int("o0")
+    ctx.assume(z3.And(q0 >= 0, q0 < kp, o0 >= 0, o0 < mp))
+    ctx.witness.update(pattern_inputs=kp, node_inputs=kn, pattern_outputs=mp, node_outputs=mn, q0=q0, o0=o0)
+    pnone = z3.Function("pattern_input_is_None", I_, B_)
+    vnone = z3.Function("node_input_is_None", I_, B_)
+    mv_ok = z3.Function("match_value_answer", I_, B_)
+    bv_ok = z3.Function("bind_value_answer", I_, B_)
+    G = {"failed": z3.BoolVal(False), "checked": z3.K(I_, z3.BoolVal(False)), "bound": z3.K(I_, z3.BoolVal(False)), "misuse": []}
+
+    class Item:
+        def __init__(self, kind, idx):
+            self.kind, self.idx = kind, idx
+
+    def mk(kind, none_fn):
+        cache = {}
+
+        def get(i):
+            i = z3.simplify(i)
+            if none_fn is not None and ctx.branch(none_fn(i)):
+                return None
+            if i.get_id() not in cache:
+                cache[i.get_id()] = Item(kind, i)
+            return cache[i.get_id()]
+        return get
+    p_in = SSeq(kp, mk("pattern_input", pnone), name="pattern.inputs")
+    n_in = SSeq(kn, mk("node_input", vnone), name="node.inputs")
+    p_out = SSeq(mp, mk("pattern_output", None), name="pattern.outputs")
+    n_out = SSeq(mn, mk("node_output", None), name="node.outputs")
+
+    class SymMatch:
+        reason = "reason"
+
+        def lookup_node(self, pattern_node):
+            return None
+
+        def bind_node(self, pattern_node, node):
+            G["bind_node"] = (pattern_node, node)
+
+        def bind_value(self, pattern_value, value):
+            i = pattern_value.idx
+            if not (isinstance(value, Item) and value.kind == "node_output" and ctx.branch(value.idx == i)):
+                G["misuse"].append(("bind_value", pattern_value, value))
+            G["bound"] = z3.Store(G["bound"], i, bv_ok(i))
+            G["failed"] = z3.Or(G["failed"], z3.Not(bv_ok(i)))
+            return SBool(bv_ok(i))
+
+        def fail(self, *a, **k):
+            G["failed"] = z3.BoolVal(True)
+            return self
+    for _n in ("lookup_node", "bind_node", "bind_value", "fail"):
+        getattr(SymMatch, _n)._pyvc_native = True
+    match = SymMatch()
+    self = _matcher_self(I, ctx, match)
+    pn = SObj(_pattern_ir.NodePattern, "pattern_node")
+    node = SObj(ir.Node, "node")
+    op_ok = ctx.choose(2, "operator/attributes match") == 0
+    allow = ctx.choose(2, "allow_other_inputs") == 1
+
+    def f_matches(*a):
+        raise AssertionError
+    I.models[f_matches] = lambda interp, n, m: op_ok
+    pn.fields.update(matches=f_matches, inputs=p_in, outputs=p_out, allow_other_inputs=allow)
+    node.fields.update(inputs=n_in, outputs=n_out, op_type="Op")
+
+    def node_input_none(i):
+        """what position i of the node holds for the matcher: None beyond the node's inputs"""
+        return z3.Or(i >= kn, vnone(i))
+
+    def m_match_value(interp, slf, pat, val):
+        i = pat.idx
+        # the pattern input must be checked against the node input AT THE SAME POSITION (None when the node has fewer inputs)
+        right = (val is None and True) or (isinstance(val, Item) and val.kind == "node_input" and ctx.branch(val.idx == i))
+        if val is None:
+            right = ctx.branch(node_input_none(i))
+        if not right:
+            G["misuse"].append(("match_value", pat, val))
+        G["checked"] = z3.Store(G["checked"], i, mv_ok(i))
+        G["failed"] = z3.Or(G["failed"], z3.Not(mv_ok(i)))   # callee contract: a False result comes with a recorded failure
+        return SBool(mv_ok(i))
+    I.models[_matcher.SimplePatternMatcher._match_value] = m_match_value
+
+    def input_ok(q):
+        return z3.If(pnone(q), node_input_none(q), z3.Select(G["checked"], q))
+
+    def havoc_inputs(interp, env):
+        G["failed"] = ctx.bool("failed")
+        G["checked"] = z3.Const(ctx.fresh("checked"), z3.ArraySort(I_, B_))
+
+    def inv_inputs(interp, env, k, pre, it):
+        return [("no_failure_so_far", z3.Not(G["failed"])), ("callees_used_position_by_position", z3.BoolVal(not G["misuse"])),
+                ("input_q0_was_checked_and_matched_once_passed", z3.Implies(k > q0, input_ok(q0)))]
+
+    def havoc_outputs(interp, env):
+        G["failed"] = ctx.bool("failed")
+        G["bound"] = z3.Const(ctx.fresh("bound"), z3.ArraySort(I_, B_))
+
+    def inv_outputs(interp, env, k, pre, it):
+        return [("no_failure_so_far", z3.Not(G["failed"])), ("callees_used_position_by_position", z3.BoolVal(not G["misuse"])),
+                ("output_o0_exists_and_was_bound_once_passed", z3.Implies(k > o0, z3.And(o0 < mn, z3.Select(G["bound"], o0)))),
+                ("inputs_stay_checked", input_ok(q0))]
+    I.loops[("SimplePatternMatcher._match_node", 0)] = LoopSpec({}, inv_inputs, heap_havoc=havoc_inputs)
+    I.loops[("SimplePatternMatcher._match_node", 1)] = LoopSpec({}, inv_outputs, heap_havoc=havoc_outputs)
+    r = I.truth(I.call(_matcher.SimplePatternMatcher._match_node, [self, pn, node]))
+    TAG = "C06.matcher.match_node.any_arity."
+    ctx.check(TAG + "callees_are_asked_position_by_position", not G["misuse"], CL + " — pattern input i against node input i (None beyond the node's inputs), pattern output i against node output i")
+    if not r:
+        ctx.cover("match_node.any_arity.false")
+        ctx.check(TAG + "a_false_result_is_recorded_as_a_failed_match", G["failed"],
+                  "C06: 'a reported match is an occurrence of the pattern' — a False that is not recorded turns into a reported match with missing bindings")
+        return
+    ctx.cover("match_node.any_arity.true")
+    ctx.check(TAG + "true_only_if_operator_and_attributes_match", op_ok, CL)
+    ctx.check(TAG + "true_only_without_extra_node_inputs_unless_allowed", z3.Or(kn <= kp, z3.BoolVal(allow)), CL)
+    ctx.check(TAG + "true_only_if_every_pattern_input_matched_the_node_input_or_None_at_its_position", input_ok(q0),
+              CL + " — an input the pattern lists must be matched even when the node has fewer inputs")
+    ctx.check(TAG + "true_only_if_every_pattern_output_was_bound_to_the_node_output_at_its_index", z3.And(o0 < mn, z3.Select(G["bound"], o0)), CL_BIND)
+    ctx.check(TAG + "node_recorded_as_matched", G.get("bind_node") is not None and G["bind_node"][0] is pn and G["bind_node"][1] is node, CL_BIND)
+    ctx.check(TAG + "true_only_without_a_recorded_failure", z3.Not(G["failed"]), CL)
+
+
+SCENARIOS.append(Scenario("C06.matcher.match_node[any arity]", s_match_node_anyarity, [(MREL, "SimplePatternMatcher._match_node")],
+                          trusted=["_match_value and MatchResult.bind_value: a False result comes with a recorded failure (their own contracts: C06.matcher.match_value, C06.basics.bind)"],
+                          assumptions=["loop invariants over ghost arrays, stated at one arbitrary (Skolem) input position and output position; termination not proved"]))
